@@ -1,5 +1,7 @@
 """C27 — arenas and thread memory pools never hand out a block twice (ownership tags, limits, conservation)."""
 
+import vfcore
+
 META = dict(
     level='exploration', engine='E4 direct-drive concurrency harness (ownership tags + shadow counters), parts of E3',
     technique='runtime monitoring: ownership tags written into every block, harness-owned allocator callbacks as ground truth '
@@ -39,7 +41,7 @@ def run(ctx):
                        'shadow live counter: raised after a successful allocation, lowered before the release call',
                        'cached chunks = allocator-callback mallocs - frees - live, exact at quiescence']
     seed = ctx.seed
-    k = 8 if thorough else 1
+    k = 5 if thorough else 1
     jobs = []
     for flavour in ('asan', 'rel'):
         exe = _exe(ctx, flavour)
@@ -67,16 +69,20 @@ def run(ctx):
                                       '--seed', seed * 5003 + ti * 10 + rep * 100, '--yield-cycle']))
 
     def one(j):
-        return j, ctx.run([str(c) for c in j['cmd']], timeout=3600 if thorough else 600, stall_s=120, tag='%s-%s-%d' % (j['kind'], j['flavour'], id(j)))
+        what = '%s/%s %s' % (j['flavour'], j['kind'], ' '.join(str(c) for c in j['cmd'][1:]))
+        runner = lambda: ctx.run([str(c) for c in j['cmd']], timeout=3600 if thorough else 900, stall_s=180, tag='%s-%s-%d' % (j['kind'], j['flavour'], id(j)))
+        if j.get('realfree'):      # usually dies of the known ASan finding: no summary expected
+            r = runner()
+            return j, r, ctx.absorb(r, what, expect_objs=False)
+        r, st = ctx.run_with_stall_rule(runner, what)      # stalled twice = violation keyed by the blocked frames
+        return j, r, st
 
     res = []
     for par in (3, 1):
         res += ctx.pmap(one, [j for j in jobs if j['par'] == par], jobs=par)
-    for j, r in res:
-        what = '%s/%s %s' % (j['flavour'], j['kind'], ' '.join(str(c) for c in j['cmd'][1:]))
-        st = ctx.absorb(r, what, expect_objs=not j.get('realfree'))   # the --real-free job usually dies of the known ASan finding
+    for j, r, st in res:
         if st == 'stalled':
-            ctx.inconclusive_case('stalled: ' + what)
+            ctx.inconclusive_case('stalled: %s [%s]' % (' '.join(str(c) for c in j['cmd'][1:]), vfcore.stall_key(r.backtraces)))
             continue
         s = r.summary()
         if not s:
